@@ -136,6 +136,16 @@ func C09Programs() []string {
 		out = append(out, decl+"acc := e\nfor i := range 2\n    acc = acc + a\n    acc[0] = "+elem+"\n    print i a acc e\nend\n")
 		out = append(out, decl+"rows := [a a[:]]\nflat := e\nfor row := range rows\n    flat = flat + row\nend\nflat[0] = "+elem+"\nprint rows flat a e\n")
 	}
+	// composites held in an any are shared through every way a value travels: declaration, assignment, any parameter,
+	// variadic any parameter, return, element of an any array / map literal, loop variable
+	for _, mk := range [][2]string{{"arr := [1 2]", "arr[0] = 9"}, {"arr := {k:1}", "arr.k = 9"}, {"arr := [[1] [2]]", "arr[1][0] = 9"}} {
+		out = append(out,
+			mk[0]+"\na:any\na = arr\nb := a\nc:any\nc = a\n"+mk[1]+"\nprint arr a b c\n",
+			mk[0]+"\na:any\na = arr\nfunc f p:any\n    "+mk[1]+"\n    print \"in\" p\nend\nf a\nprint arr a\nfunc g p:any...\n    "+mk[1]+"\n    print \"in\" p\nend\ng a a\nprint arr a\n",
+			mk[0]+"\na:any\na = arr\nl := [a a]\nm := {k:a}\n"+mk[1]+"\nprint arr a l m\n",
+			mk[0]+"\na:any\na = arr\nfunc h:any\n    return a\nend\nr := (h)\n"+mk[1]+"\nprint arr a r\n",
+			mk[0]+"\nl := [arr 1 arr]\nfor e := range l\n    q := e\n    "+mk[1]+"\n    print e q\nend\nprint arr l\n")
+	}
 	// strings are values: every producing expression, then the operand is rebound
 	out = append(out, "s := \"aéz\"\nt := s[:]\nu := s + \"\"\nv := \"\" + s\nw := s[0:]\ns = \"q\"\nprint s t u v w\nt = t + \"!\"\nprint s t u v w\n")
 	return out
@@ -294,6 +304,15 @@ func C10Programs() []string {
 		"m := {a:1 b:2 c:3}\nfor k := range m\n    del m k\n    m[k] = 5\n    print k m\nend\n",
 		"for i := range 3 0 -1\n    print i\nend\nfor i := range 0 1 0.25\n    print i\nend\n",
 	)
+	// the steps of a numeric range are fixed at loop entry and the loop variable is a fresh copy in every iteration:
+	// writing it in the body, or keeping it in an outer variable, changes nothing about the later steps
+	out = append(out,
+		"for i := range 1 4\n    print \"step\" i\n    i = 100\n    print \"set\" i\nend\n",
+		"first := -1\nlast := -1\nfor i := range 2 10 3\n    if first == -1\n        first = i\n    end\n    last = i\n    print i first last\nend\nprint first last\n",
+		"func pick:num k:num\n    n := 0\n    best := -1\n    for v := range 10 0 -2.5\n        if n == k\n            best = v\n        end\n        if n > k\n            return best\n        end\n        n = n + 1\n    end\n    return best\nend\nprint (pick 0) (pick 1) (pick 2) (pick 9)\n",
+		"kept := [0 0 0]\nm := {}\nfor i := range 3\n    kept[i] = i\n    m[sprint i] = i\n    i = i * 10\nend\nprint kept m\n",
+		"a := [1 2 3]\nfor e := range a\n    e = e * 10\n    print e\nend\nprint a\nfor c := range \"ab\"\n    c = c + \"!\"\n    print c\nend\nfor k := range {p:1 q:2}\n    k = k + \"?\"\n    print k\nend\n",
+		"outer := 0\nfor i := range 3\n    for j := range 2\n        outer = i\n        i = 7\n        j = 9\n    end\n    print i outer\nend\n")
 	// a bare `return` leaves exactly the current procedure, from any nesting depth, also under recursion
 	out = append(out,
 		"func p n:num\n    print \"in\" n\n    if n > 3\n        return\n    end\n    for i := range 3\n        while true\n            if i == n\n                return\n            end\n            break\n        end\n        print \"i\" i\n    end\n    print \"end\" n\nend\np 0\np 1\np 2\np 3\np 5\nprint \"done\"\n",
